@@ -1,4 +1,6 @@
 mod addr;
+mod check;
+mod supervisor;
 mod codec_dhcp;
 mod common;
 mod interpose;
@@ -36,6 +38,51 @@ fn main() {
                 }
             }
             println!("{}", serde_json::to_string_pretty(&res).unwrap());
+        }
+        "check" => {
+            let prop = args.get(2).cloned().unwrap_or_default();
+            let tier = args.get(3).cloned().unwrap_or("quick".into());
+            let seed: u64 = arg(&args, "--seed").and_then(|s| s.parse().ok()).or_else(|| std::env::var("VERIF_SEED").ok().and_then(|s| s.parse().ok())).unwrap_or(1);
+            let dir = arg(&args, "--dir").unwrap_or("/verif".into());
+            std::process::exit(check::run_check(&prop, &tier, seed, &dir));
+        }
+        "replay" => {
+            std::process::exit(check::replay(&args.get(2).cloned().unwrap_or_default()));
+        }
+        "selftest" => {
+            let world = arg(&args, "--world").unwrap_or("A".into());
+            let shape: &'static str = Box::leak(arg(&args, "--shape").unwrap_or("mixed".into()).into_boxed_str());
+            let n: u64 = arg(&args, "--n").and_then(|s| s.parse().ok()).unwrap_or(200);
+            std::process::exit(check::selftest_determinism(&world, shape, n, 7));
+        }
+        "sweep" => {
+            /* development aid: run a batch and print every violation kind with one example */
+            let world = arg(&args, "--world").unwrap_or("A".into());
+            let shape: &'static str = Box::leak(arg(&args, "--shape").unwrap_or("mixed".into()).into_boxed_str());
+            let n: u64 = arg(&args, "--n").and_then(|s| s.parse().ok()).unwrap_or(1000);
+            let base: u64 = arg(&args, "--seed").and_then(|s| s.parse().ok()).unwrap_or(1);
+            let thorough = args.iter().any(|a| a == "--thorough");
+            let jobs: Vec<supervisor::Job> = (0..n).map(|i| check::make_job(&world, shape, check::job_seed(base, "sweep", shape, i), thorough)).collect();
+            let t = std::time::Instant::now();
+            let outs = supervisor::run_jobs(&jobs, check::workers(), false, |_, _| {});
+            let mut sum = supervisor::BatchSummary::new();
+            let mut counts: std::collections::BTreeMap<String, u64> = Default::default();
+            for (i, o) in outs.iter().enumerate() {
+                sum.add(i, &jobs[i], o);
+                for v in supervisor::outcome_violations(&jobs[i], o) {
+                    *counts.entry(v.kind).or_insert(0) += 1;
+                }
+            }
+            println!("{} runs in {:.1}s, {} distinct nontrivial, sim {} s", n, t.elapsed().as_secs_f64(), sum.nontrivial, sum.sim_ms / 1000);
+            for (k, (v, idx)) in &sum.by_kind {
+                println!("== {} x{} (first: job {} seed {})\n   {}", k, counts[k], idx, jobs[*idx].seed(), v.detail.chars().take(700).collect::<String>());
+            }
+            println!("probes: {:?}", sum.probes);
+            println!("faults: {:?}", sum.faults);
+            println!("observations: {:?}", sum.observations);
+            for e in &sum.harness_errors {
+                println!("HARNESS ERROR: {}", e.chars().take(1500).collect::<String>());
+            }
         }
         _ => {
             eprintln!("usage: esim run-a --seed N --shape S [--trace] [--plan]");
